@@ -524,7 +524,10 @@ def _contribution(ctx, f, S, pv, stmts, penv, acc_masks):
                 out.append(("whole", None) if other == [f"{pv}.selection_vector"] else ("mask", st.value))
         if isinstance(st, ast.Assign) and len(st.targets) == 1 and isinstance(st.targets[0], ast.Subscript) and U(st.targets[0].value) in acc_masks:
             if isinstance(st.value, ast.Constant) and st.value.value is True:
-                out.append(("rows", inline(st.targets[0].slice, env)))
+                ix = inline(st.targets[0].slice, env)
+                whole_ix = (f"np.flatnonzero({pv}.selection_vector)", f"np.arange({S}.size)[{pv}.selection_vector]", f"np.where({pv}.selection_vector)[0]",
+                            f"np.nonzero({pv}.selection_vector)[0]", f"{pv}.selection_vector")
+                out.append(("whole", None) if U(ix).replace(" ", "") in whole_ix else ("rows", ix))
             else:
                 out.append(("other", st.value))
     return out
